@@ -66,20 +66,62 @@ func runC19(c *Ctx) {
 	if wr == nil || cl == nil {
 		c.Unk("C19.W2-count-and-not-found", "rwriter.ProviderResponseWriter", token.NoPos, "WriteProviderResult/Close not found")
 	} else {
-		var inc *ssa.Store
+		// every success return is preceded, on every path, by exactly the increment (there may be one per mode)
+		var incs []*ssa.Store
 		instrs(wr.SSA, func(in ssa.Instruction) {
 			if st, ok := in.(*ssa.Store); ok {
 				if a := c.E(st.Addr); a.Op == "field" && a.Name == "count" {
 					if _, m := Match(Bin("+", Field("count", Any()), Const("1")), c.E(st.Val)); m {
-						inc = st
+						incs = append(incs, st)
 					}
 				}
 			}
 		})
-		okCount := inc != nil
+		isInc := func(in ssa.Instruction) bool {
+			for _, st := range incs {
+				if in == ssa.Instruction(st) {
+					return true
+				}
+			}
+			return false
+		}
+		okCount := len(incs) > 0
+		// walk backwards from each success return: every path must meet an increment before the entry
 		for _, b := range wr.SSA.Blocks {
-			if ret, ok := b.Instrs[len(b.Instrs)-1].(*ssa.Return); ok && c.RetX(ret, 0).Op == "nil" {
-				if inc == nil || !Precedes(inc, ret) {
+			ret, ok := b.Instrs[len(b.Instrs)-1].(*ssa.Return)
+			if !ok || c.RetX(ret, 0).Op != "nil" {
+				continue
+			}
+			seen := map[*ssa.BasicBlock]bool{}
+			var back func(bb *ssa.BasicBlock, from int) bool
+			back = func(bb *ssa.BasicBlock, from int) bool {
+				for i := from; i >= 0; i-- {
+					if isInc(bb.Instrs[i]) {
+						return true
+					}
+				}
+				if len(bb.Preds) == 0 {
+					return false
+				}
+				for _, p := range bb.Preds {
+					if seen[p] {
+						continue
+					}
+					seen[p] = true
+					if !back(p, len(p.Instrs)-1) {
+						return false
+					}
+				}
+				return true
+			}
+			if !back(b, len(b.Instrs)-1) {
+				okCount = false
+			}
+		}
+		// and no path counts twice
+		for _, a := range incs {
+			for _, b2 := range incs {
+				if a != b2 && MayFollow(a, b2) {
 					okCount = false
 				}
 			}
